@@ -463,6 +463,18 @@ func ParseFile(path string, pkgPath string) (*File, error) {
 			sf.Pkg = f.Pkg
 			f.Specs = append(f.Specs, sf)
 			cur, curCS = nil, nil
+		case "private":
+			// private T1, T2 in file.go
+			i := strings.Index(rest, " in ")
+			if i < 0 {
+				return nil, fail(fmt.Errorf("private T1, T2 in file.go"))
+			}
+			pr := &Private{File: strings.TrimSpace(rest[i+4:]), Pos: ln.pos, Pkg: f.Pkg}
+			for _, t := range strings.Split(rest[:i], ",") {
+				pr.Types = append(pr.Types, strings.TrimSpace(t))
+			}
+			f.Privates = append(f.Privates, pr)
+			cur, curCS = nil, nil
 		case "footprint":
 			eq := strings.Index(rest, "=")
 			op := strings.Index(rest, "(")
@@ -833,7 +845,7 @@ func ParseFile(path string, pkgPath string) (*File, error) {
 }
 
 var keywords = map[string]bool{
-	"spec": true, "macro": true, "footprint": true, "ghost": true, "axiom": true, "lemma": true, "event": true, "func": true,
+	"spec": true, "macro": true, "footprint": true, "private": true, "ghost": true, "axiom": true, "lemma": true, "event": true, "func": true,
 	"requires": true, "ensures": true, "modifies": true, "pure": true, "noeffect": true, "trusted": true,
 	"let": true, "loop": true, "callsite": true, "assert": true, "assume": true, "cutafter": true, "invariant": true, "typeinv": true, "import": true, "package": true,
 	"noinline": true, "inline": true, "props": true, "fresh": true, "opt": true, "stablegetters": true, "represents": true, "dyncall": true, "silent": true, "assumes": true, "reenter": true, "monitor": true,
